@@ -218,4 +218,4 @@ def _gate_nodes(node, out=None):
 
 
 def subchecks(tier):
-    return [Sub("trees", cases(), run_case, quick=10000, thorough=200000)]
+    return [Sub("trees", cases(), run_case, quick=24000, thorough=300000)]
